@@ -4,3 +4,4 @@ pub mod c16;
 pub mod cmp;
 #[cfg(feature = "serde")]
 pub mod serde_eng;
+pub mod uninit;
